@@ -326,6 +326,8 @@ pub struct StepOut {
     pub renders: Vec<String>,
     pub renders2: Vec<String>,
     pub obs: Option<Result<Obs, String>>,
+    /// the same observation with sort-by-name rendering
+    pub obs_sorted: Option<Result<Obs, String>>,
     pub stats: ReadStats,
     pub rlog: u64,
 }
@@ -353,6 +355,7 @@ fn run_replica_here(session: &Session, r: &Replica, want: &Want) -> Vec<StepOut>
             renders: vec![],
             renders2: vec![],
             obs: None,
+            obs_sorted: None,
             stats,
             rlog,
         };
@@ -388,14 +391,16 @@ fn run_replica_here(session: &Session, r: &Replica, want: &Want) -> Vec<StepOut>
                     }
                 }
                 let obs = if want.obs { Some(observe(t, true, SortBy::Unsorted)) } else { None };
-                (api, renders, renders2, obs)
+                let obs_sorted = if want.obs { Some(observe(t, true, SortBy::XmlName)) } else { None };
+                (api, renders, renders2, obs, obs_sorted)
             }));
             match r {
-                Ok((api, renders, renders2, obs)) => {
+                Ok((api, renders, renders2, obs, obs_sorted)) => {
                     out.api = api;
                     out.renders = renders;
                     out.renders2 = renders2;
                     out.obs = obs;
+                    out.obs_sorted = obs_sorted;
                 }
                 Err(p) => out.panic = Some(format!("while rendering: {}", crate::panic_text(&p))),
             }
@@ -444,6 +449,11 @@ pub fn trace_hash(outs: &[ReplicaOut]) -> u64 {
             }
             if let Some(Err(e)) = &s.obs {
                 h.str(e);
+            }
+            if let Some(Ok(o)) = &s.obs {
+                for l in &o.block.lines {
+                    h.str(l);
+                }
             }
             h.u64(s.stats.fill_calls);
             h.u64(s.rlog);
